@@ -548,9 +548,9 @@ func kindTerm(fd protoreflect.FieldDescriptor) string {
 		return "KdEnum"
 	case protoreflect.MessageKind:
 		switch fd.Message().FullName() {
-		case "foo.v1.Bar":
+		case "foo.v1.Bar", "foo.v1.Baz":
 			return "KdMsgObject"
-		case "foo.v1.Choice":
+		case "foo.v1.Choice", "foo.v1.Pick":
 			return "KdMsgOneof"
 		case "google.protobuf.Timestamp":
 			return "KdTimestamp"
@@ -779,6 +779,10 @@ func messageWithID(md protoreflect.MessageDescriptor, id int64) protoreflect.Mes
 		set("x", protoreflect.ValueOfString(fmt.Sprintf("m%d", id)))
 	case "foo.v1.Choice":
 		set("a", protoreflect.ValueOfString(fmt.Sprintf("m%d", id)))
+	case "foo.v1.Baz":
+		set("y", protoreflect.ValueOfInt32(int32(id)))
+	case "foo.v1.Pick":
+		set("c", protoreflect.ValueOfString(fmt.Sprintf("m%d", id)))
 	case "google.protobuf.Timestamp":
 		set("seconds", protoreflect.ValueOfInt64(id))
 	case "j5.types.date.v1.Date":
